@@ -212,8 +212,11 @@ def run(ctx):
                  and not any(isinstance(x, ast.For) for b in lp.body for x in ast.walk(b))]
     ctx.need(len(loc_loops) == 1, "location loop of reverse_complement")
     lv = loc_loops[0].target.id
-    benv = summarize_block(loc_loops[0].body).env
     loc_call = next(c for c in ast.walk(loc_loops[0]) if isinstance(c, ast.Call) and call_name(c) == "Location")
+    # only what is computed BEFORE the mirrored Location is built counts
+    k_loc = next(k for k, st in enumerate(loc_loops[0].body) if any(n is loc_call for n in ast.walk(st)))
+    ctx.need(isinstance(loc_loops[0].body[k_loc], (ast.Expr, ast.Assign)), "the mirrored Location is built by a plain statement of the loop body")
+    benv = summarize_block(loc_loops[0].body[:k_loc]).env
     darg = loc_call.args[3] if len(loc_call.args) > 3 else next((k.value for k in loc_call.keywords if k.arg == "defect"), None)
     ctx.need(darg is not None, "defect argument of the mirrored Location")
     from ..exprnorm import subst
@@ -238,7 +241,8 @@ def run(ctx):
         if isinstance(t, ast.BinOp) and isinstance(t.op, ast.BitAnd):
             parts = [t.left, t.right]
             d = [defect(p_) for p_ in parts if defect(p_)]
-            if len(d) == 1 and any(isinstance(p_, ast.Attribute) and p_.attr == "defect" for p_ in parts):
+            if len(d) == 1 and any(isinstance(p_, ast.Attribute) and p_.attr == "defect" and isinstance(p_.value, ast.Name)
+                                   and p_.value.id == lv for p_ in parts):
                 return d[0] in flags
         if isinstance(t, ast.UnaryOp) and isinstance(t.op, ast.Not):
             return not truth(t.operand, flags)
